@@ -31,7 +31,7 @@ PickSave ==
        /\ a' = [family |-> "save", kind |-> k, scale |-> s, border |-> b, colour |-> c, which |-> w, kindc |-> kc]
   /\ UNCHANGED refusals
 \* command line: classes of invocations
-CliCs == {"ok_file", "ok_terminal", "bad_version", "H_with_micro_version", "overflow_version_1", "numeric_mode_for_text", "pattern_9",
+CliCs == {"ok_file", "ok_terminal", "ok_lower_micro_version", "ok_upper_micro_version", "ok_micro_flag", "ok_lower_error", "ok_mode_upper", "bad_version", "H_with_micro_version", "overflow_version_1", "numeric_mode_for_text", "pattern_9",
           "symbol_count_17", "eci_unavailable_micro", "version_M5", "seq_without_version"}
 PickCli == /\ pc = "pick" /\ pc' = "check"
            /\ \E c \in CliCs : a' = [family |-> "cli", cls |-> c]
@@ -45,7 +45,7 @@ Check ==
             \cup (IF a.scale = "half" /\ a.kind \in Raster THEN {"raster scale below 1"} ELSE {})
             \cup (IF a.border \in {"negative", "fraction"} THEN {"border negative or fractional"} ELSE {})
             \cup (IF a.colour \in MalformedColour THEN {"malformed colour"} ELSE {})
-       ELSE IF a.cls \in {"ok_file", "ok_terminal"} THEN {} ELSE {a.cls}
+       ELSE IF a.cls \in {"ok_file", "ok_terminal", "ok_lower_micro_version", "ok_upper_micro_version", "ok_micro_flag", "ok_lower_error", "ok_mode_upper"} THEN {} ELSE {a.cls}
 Next == PickSave \/ PickCli \/ Check
 Spec == Init /\ [][Next]_vars
 Done == pc = "done"
